@@ -1,14 +1,3 @@
-"""One entry per claimed property; lib/mkmanifest.py turns this into MANIFEST.json."""
-CHECKS = {
-    "C21": dict(
-        category="proof",
-        text="Coq model of ModuleGraph+tsort (coq/Graph/Model.v) with theorems over all operation histories "
-             "(index invariant, no panic, DFS reachability, cycle refusal, acyclicity, tsort soundness), tied to the Rust "
-             "code by step-wise simulation of generated histories from the implementation's own state; a plain reference "
-             "graph (coq/Graph/Spec.v, extracted) judges every answer.",
-        note="Trusted: Coq kernel, extraction (ExtrOcamlBasic) + 60-line OCaml driver, harness graph.rs. FxHash Set/Dict "
-             "modelled as duplicate-free lists; rename only to a fresh path; is_dir() false.",
-        technique="Coq proof over hand model + step-wise correspondence (extracted model vs ModuleGraph) + extracted reference-graph judge",
-        design="DESIGN.md §4 C21"),
-}
+"""Properties not claimed (with reason) and checks temporarily disabled. Claimed checks carry a REGISTRY dict in checks/cXX.py."""
 NOT_APPLICABLE = {}
+DISABLED = set()
